@@ -30,6 +30,9 @@ struct Held {
 }
 
 pub fn run_c20(bytes: &[u8], tier: Tier) -> Outcome {
+    if crate::choice::dv() >= 2 && bytes.first().map_or(false, |b| b % 4 == 3) {
+        return run_c20_scoped(&bytes[1..], tier);
+    }
     crate::engine::set_engine_hash_seed(bytes);
     let mut ch = Choices::new(bytes);
     let steps = if tier == Tier::Quick { 40 } else { 120 };
@@ -354,4 +357,165 @@ pub fn run_c20(bytes: &[u8], tier: Tier) -> Outcome {
     }
     INNER_CALLS.with(|c| c.borrow_mut().clear());
     Outcome { failures: fails, nontrivial, classes, trace, discarded: false, sub_evaluations: 0 }
+}
+
+// ======================================================================
+// decoder 2: the memoised function itself is created inside a bind closure
+
+thread_local! {
+    /// the memoised function created by the latest run of the outer bind closure, and its generation
+    static SCOPED: RefCell<Option<(u32, Box<dyn FnMut(usize) -> Incr<i32>>)>> = RefCell::new(None);
+    static SCOPED_CALLS: Cell<u32> = Cell::new(0);
+}
+
+/// `weak_memoize_fn` called inside a bind closure: the nodes it creates belong to that run of the
+/// bind, whoever asks for them (here: top level). While the bind has not re-run they are shared,
+/// valid and correct; once it re-ran, every node the old function created is invalid.
+pub fn run_c20_scoped(bytes: &[u8], tier: Tier) -> Outcome {
+    crate::engine::set_engine_hash_seed(bytes);
+    let mut ch = Choices::new(bytes);
+    let steps = if tier == Tier::Quick { 30 } else { 80 };
+    let mut fails: Vec<Failure> = vec![];
+    let mut trace: Vec<String> = vec!["outer = o.bind(|_| { memo = weak_memoize_fn(|k| x.map(+k)); hand memo out; .. }); memo is called from top level".into()];
+    let (mut reruns, mut calls_after_rerun, mut invalid_seen, mut rounds) = (0u64, 0u64, 0u64, 0u64);
+    SCOPED.with(|s| *s.borrow_mut() = None);
+    SCOPED_CALLS.with(|c| c.set(0));
+    let r = guarded(|| {
+        let st = IncrState::new();
+        let mut xv = 10i32;
+        let x: Var<i32> = st.var(xv);
+        let mut ov = 0i32;
+        let o: Var<i32> = st.var(ov);
+        let gen = Rc::new(Cell::new(0u32));
+        let outer = {
+            let xw = x.watch();
+            let gen = gen.clone();
+            o.binds(move |s, v: &i32| {
+                let xw2 = xw.clone();
+                let memo = s.upgrade().unwrap().weak_memoize_fn(move |k: usize| {
+                    SCOPED_CALLS.with(|c| c.set(c.get() + 1));
+                    xw2.map(move |v| v + k as i32)
+                });
+                gen.set(gen.get() + 1);
+                SCOPED.with(|slot| *slot.borrow_mut() = Some((gen.get(), Box::new(memo))));
+                s.constant(*v)
+            })
+        };
+        let outer_obs = outer.observe();
+        // nodes obtained from top level: (generation of the memo, key, node, observer)
+        let mut held: Vec<(u32, usize, Incr<i32>, Observer<i32>, bool)> = vec![];
+        let mut o_written = false;
+        let mut model_gen = 0u32;
+        for step in 0..steps {
+            if ch.exhausted() && step > 0 {
+                break;
+            }
+            match ch.weighted(&[6, 6, 3, 3, 2]) {
+                0 => {
+                    let res = guarded(|| st.stabilise());
+                    rounds += 1;
+                    if let Err(m) = res {
+                        fails.push(Failure { prop: "C20", clause: "panic", msg: format!("step {step}: stabilise panicked: {m}") });
+                        return;
+                    }
+                    if model_gen == 0 || o_written {
+                        model_gen += 1;
+                        if model_gen > 1 {
+                            reruns += 1;
+                        }
+                    }
+                    o_written = false;
+                    trace.push(format!("stabilise (outer bind generation {model_gen})"));
+                    if gen.get() != model_gen {
+                        fails.push(Failure { prop: "C20", clause: "harness", msg: format!("outer bind ran {} times, model says {model_gen}", gen.get()) });
+                        return;
+                    }
+                    if outer_obs.try_get_value() != Ok(ov) {
+                        fails.push(Failure { prop: "C20", clause: "value", msg: format!("step {step}: outer bind shows {:?}, expected {ov}", outer_obs.try_get_value()) });
+                        return;
+                    }
+                    for (g, k, _n, ob, fresh) in held.iter_mut() {
+                        let got = ob.try_get_value();
+                        *fresh = false;
+                        if *g == model_gen {
+                            if got != Ok(xv + *k as i32) {
+                                fails.push(Failure { prop: "C20", clause: "value", msg: format!("step {step}: node for key {k} from the memoised function of generation {g} (current) returned {got:?}, expected {}", xv + *k as i32) });
+                                return;
+                            }
+                        } else {
+                            invalid_seen += 1;
+                            if got.is_ok() {
+                                fails.push(Failure {
+                                    prop: "C20",
+                                    clause: "node-outlived-its-creation-scope",
+                                    msg: format!("step {step}: the bind in whose closure weak_memoize_fn was called has re-run (generation {model_gen}), but the node its function created for key {k} on a call from top level (generation {g}) still returns {got:?}"),
+                                });
+                                return;
+                            }
+                        }
+                    }
+                }
+                1 => {
+                    // call the current memoised function from top level (only once it exists and its scope is current)
+                    if model_gen == 0 || o_written {
+                        continue;
+                    }
+                    let k = ch.choose(KEYS);
+                    let before = SCOPED_CALLS.with(|c| c.get());
+                    let got = SCOPED.with(|s| s.borrow_mut().as_mut().map(|(g, f)| (*g, f(k))));
+                    let Some((g, node)) = got else { continue };
+                    let after = SCOPED_CALLS.with(|c| c.get());
+                    trace.push(format!("top level: memo_gen{g}({k})"));
+                    if model_gen > 1 {
+                        calls_after_rerun += 1;
+                    }
+                    let existing = held.iter().find(|h| h.0 == g && h.1 == k).map(|h| h.2.clone());
+                    match existing {
+                        Some(e) => {
+                            if e != node || after != before {
+                                fails.push(Failure { prop: "C20", clause: "not-shared", msg: format!("step {step}: key {k} is still referenced but the call returned another node or invoked the function again") });
+                                return;
+                            }
+                        }
+                        None => {
+                            let ob = node.observe();
+                            held.push((g, k, node, ob, true));
+                        }
+                    }
+                }
+                2 => {
+                    ov += 1;
+                    o.set(ov);
+                    o_written = true;
+                    trace.push(format!("o.set({ov})  [the creation-scope bind will re-run]"));
+                }
+                3 => {
+                    xv = ch.choose(6) as i32;
+                    x.set(xv);
+                    trace.push(format!("x.set({xv})"));
+                }
+                _ => {
+                    if !held.is_empty() {
+                        let i = ch.choose(held.len());
+                        let h = held.remove(i);
+                        trace.push(format!("drop node and observer of key {} (generation {})", h.1, h.0));
+                    }
+                }
+            }
+        }
+        drop(held);
+        drop(outer_obs);
+    });
+    SCOPED.with(|s| *s.borrow_mut() = None);
+    if let Err(m) = r {
+        fails.push(Failure { prop: "C20", clause: "panic", msg: format!("panic outside stabilise: {m}") });
+    }
+    let classes = vec![
+        ("memo_created_inside_a_bind_cases", 1u64),
+        ("creation_scope_reruns", reruns),
+        ("top_level_calls_after_a_rerun", calls_after_rerun),
+        ("reads_of_nodes_whose_creation_scope_is_gone", invalid_seen),
+        ("stabilises", rounds),
+    ];
+    Outcome { failures: fails, nontrivial: reruns > 0 && invalid_seen > 0 && calls_after_rerun > 0, classes, trace, discarded: false, sub_evaluations: 0 }
 }
